@@ -1,7 +1,9 @@
 ---------------------------- MODULE Judge_Walker ----------------------------
 (* J binding of C19: every record is a random tree built by the Go harness, the options / skip patterns / roots it   *)
 (* was walked with, and what the real walker delivered.  The record is explained iff the delivered multiset is        *)
-(* FzfWalker!Expected for that tree.                                                                                   *)
+(* FzfWalker!Expected for that tree.  Trees may contain link cycles: Expected is finite for them too.  A record whose  *)
+(* walk the harness had to stop (cut = "cap": more than r.cap items delivered; "deadline": not finished within the    *)
+(* wall-clock limit) is never explained - provided the budget really exceeded what the specification expects.         *)
 EXTENDS FzfWalker, Json, IOUtils
 TraceLog == ndJsonDeserialize(IOEnv.TRACE)
 Shards == 16
@@ -15,7 +17,7 @@ JNext == /\ l + Shards <= Len(TraceLog) /\ l' = l + Shards
 SkipsOf(r) == {r.skips[i] : i \in DOMAIN r.skips}
 BagOfList(s) == [x \in Range(s) |-> Cardinality({i \in DOMAIN s : s[i] = x})]
 (* the harness generated something the specification can speak about *)
-Valid(r) == /\ TypeOK /\ Acyclic
+Valid(r) == /\ TypeOK
             /\ \A n \in tree : \A i \in DOMAIN n.path : n.path[i] \in KnownNames
             /\ \A i \in DOMAIN r.roots : RootOK(r.roots[i])
             /\ Cardinality(tree) = Len(r.nodes)
@@ -23,6 +25,9 @@ Explained(r)      == BagOfList(r.out) = OutBag(Expected(r.roots, r.o, SkipsOf(r)
 ExplainedByDev(r) == BagOfList(r.out) = OutBag(ExpectedDev(r.roots, r.o, SkipsOf(r)))     \* LinkDirAsFile (F14)
 JInv == LET r == TraceLog[l] IN
         IF ~Valid(r) THEN PrintT(<<"INVALID", l>>)
+        ELSE IF r.cut # "" THEN (IF Len(Expected(r.roots, r.o, SkipsOf(r))) < r.cap
+                                   THEN PrintT(<<"MISMATCH", l, "runaway">>)
+                                   ELSE PrintT(<<"INVALID", l>>))
         ELSE IF Explained(r) THEN TRUE
         ELSE IF ExplainedByDev(r) THEN PrintT(<<"MISMATCH", l, "LinkDirAsFile">>)
         ELSE PrintT(<<"MISMATCH", l, "unexplained">>)
